@@ -135,125 +135,134 @@ Definition with_attrs (o : xobj) (t s : str) (ps : list str) (f : list (str * st
   {| x_kind := x_kind o; x_typ := t; x_src := s; x_props := x_props o; x_atts := x_atts o; x_parents := ps;
      x_foreign := f; c_props := c_props o; c_props_owner := c_props_owner o; c_atts := c_atts o; c_atts_owner := c_atts_owner o |}.
 
-(* the update callbacks: rewrite the XML of the owner *)
-Definition xml_setp (h : heap) (owner : nat) (p : str) (vs : list str) : heap :=
-  hupd h owner (fun o => with_xprops o (aput is_nil p vs (x_props o))).
-Definition xml_seta (h : heap) (owner : nat) (a : str) (d : list (str * str)) : heap :=
-  hupd h owner (fun o => with_xatts o (aput is_nil a d (x_atts o))).
+(* the update callbacks rewrite the XML of the OWNER of the cached view: XML writes are data *)
+Inductive write :=
+| WProp (owner : nat) (p : str) (vs : list str)            (* replace the <p> children by vs (none when empty) *)
+| WAtt (owner : nat) (a : str) (d : list (str * str))      (* replace the <a> attachment children by d *)
+| WClearProps (owner : nat).                               (* properties_element.clear() *)
+
+Definition w_owner (w : write) : nat := match w with WProp o _ _ | WAtt o _ _ | WClearProps o => o end.
+
+Definition apply_write_obj (o : xobj) (w : write) : xobj :=
+  match w with
+  | WProp _ p vs => with_xprops o (aput is_nil p vs (x_props o))
+  | WAtt _ a d => with_xatts o (aput is_nil a d (x_atts o))
+  | WClearProps _ => with_xprops o []
+  end.
+Definition apply_write (h : heap) (w : write) : heap := hupd h (w_owner w) (fun o => apply_write_obj o w).
 
 (* get_properties() / get_attachments(): build the cached view from the XML on first use *)
-Definition ensure_props (h : heap) (i : nat) : heap :=
-  hupd h i (fun o => match c_props o with
-                     | Some _ => o
-                     | None => with_cprops o (Some (map (fun kv => (fst kv, (snd kv, i))) (x_props o))) i
-                     end).
-Definition ensure_atts (h : heap) (i : nat) : heap :=
-  hupd h i (fun o => match c_atts o with
-                     | Some _ => o
-                     | None => with_catts o (Some (map (fun kv => (fst kv, (snd kv, i))) (x_atts o))) i
-                     end).
+Definition ensure_props (i : nat) (o : xobj) : xobj :=
+  match c_props o with
+  | Some _ => o
+  | None => with_cprops o (Some (map (fun kv => (fst kv, (snd kv, i))) (x_props o))) i
+  end.
+Definition ensure_atts (i : nat) (o : xobj) : xobj :=
+  match c_atts o with
+  | Some _ => o
+  | None => with_catts o (Some (map (fun kv => (fst kv, (snd kv, i))) (x_atts o))) i
+  end.
 
-Definition cache_of (h : heap) (i : nat) : list (str * (list str * nat)) :=
-  match hget h i with Some o => odefault [] (c_props o) | None => [] end.
-Definition pown_of (h : heap) (i : nat) : nat := match hget h i with Some o => c_props_owner o | None => i end.
-Definition acache_of (h : heap) (i : nat) : list (str * (list (str * str) * nat)) :=
-  match hget h i with Some o => odefault [] (c_atts o) | None => [] end.
-Definition aown_of (h : heap) (i : nat) : nat := match hget h i with Some o => c_atts_owner o | None => i end.
+Definition cache_of (o : xobj) : list (str * (list str * nat)) := odefault [] (c_props o).
+Definition acache_of (o : xobj) : list (str * (list (str * str) * nat)) := odefault [] (c_atts o).
 
 (* event[p] : PropertySet.__getitem__ creates an empty set (owned by the PropertySet's owner) when missing *)
-Definition entry (h : heap) (i : nat) (p : str) : list str * nat :=
-  odefault ([], pown_of h i) (aget p (cache_of h i)).
-Definition aentry (h : heap) (i : nat) (a : str) : list (str * str) * nat :=
-  odefault ([], aown_of h i) (aget a (acache_of h i)).
+Definition entry (o : xobj) (p : str) : list str * nat := odefault ([], c_props_owner o) (aget p (cache_of o)).
+Definition aentry (o : xobj) (a : str) : list (str * str) * nat := odefault ([], c_atts_owner o) (aget a (acache_of o)).
 
-Definition set_cache (h : heap) (i : nat) (p : str) (e : list str * nat) : heap :=
-  hupd h i (fun o => with_cprops o (Some (aset p e (odefault [] (c_props o)))) (c_props_owner o)).
-Definition del_cache (h : heap) (i : nat) (p : str) : heap :=
-  hupd h i (fun o => with_cprops o (Some (aremove p (odefault [] (c_props o)))) (c_props_owner o)).
-Definition set_acache (h : heap) (i : nat) (a : str) (e : list (str * str) * nat) : heap :=
-  hupd h i (fun o => with_catts o (Some (aset a e (odefault [] (c_atts o)))) (c_atts_owner o)).
-Definition del_acache (h : heap) (i : nat) (a : str) : heap :=
-  hupd h i (fun o => with_catts o (Some (aremove a (odefault [] (c_atts o)))) (c_atts_owner o)).
+Definition set_cache (o : xobj) (p : str) (e : list str * nat) : xobj :=
+  with_cprops o (Some (aset p e (cache_of o))) (c_props_owner o).
+Definition del_cache (o : xobj) (p : str) : xobj :=
+  with_cprops o (Some (aremove p (cache_of o))) (c_props_owner o).
+Definition set_acache (o : xobj) (a : str) (e : list (str * str) * nat) : xobj :=
+  with_catts o (Some (aset a e (acache_of o))) (c_atts_owner o).
+Definition del_acache (o : xobj) (a : str) : xobj :=
+  with_catts o (Some (aremove a (acache_of o))) (c_atts_owner o).
 
 (* a mutation of the object set event[p]: store the new set, call the set's update callback *)
-Definition mutate_set (h : heap) (i : nat) (p : str) (f : list str -> list str) : heap :=
-  let h1 := ensure_props h i in
-  let '(objs, ow) := entry h1 i p in
-  xml_setp (set_cache h1 i p (f objs, ow)) ow p (f objs).
+Definition mutate_set (i : nat) (o : xobj) (p : str) (f : list str -> list str) : xobj * list write :=
+  let o1 := ensure_props i o in
+  let '(objs, ow) := entry o1 p in
+  (set_cache o1 p (f objs, ow), [WProp ow p (f objs)]).
 
-Definition kind_of (h : heap) (i : nat) : kind := match hget h i with Some o => x_kind o | None => KElement end.
-
-Definition xstep (h : heap) (i : nat) (o : eop) : heap * bool :=
-  match o with
+(* local effect of one operation on the target object: its new cached views / attributes, the XML writes
+   issued through update callbacks, and whether the call returned normally (false = KeyError) *)
+Definition lstep (i : nat) (o : xobj) (e : eop) : xobj * list write * bool :=
+  match e with
   | SetItem p vs =>
-      (* a fresh object set bound to the event itself; the XML of the event is rewritten *)
-      let h1 := xml_setp h i p (sset vs) in
-      (set_cache (ensure_props h1 i) i p (sset vs, i), true)
+      (* a fresh object set bound to the event itself; the XML of the event is rewritten first, the
+         cached view is built (from that XML) if it did not exist yet *)
+      let o1 := ensure_props i (apply_write_obj o (WProp i p (sset vs))) in
+      (set_cache (with_xprops o1 (x_props o)) p (sset vs, i), [WProp i p (sset vs)], true)
   | DelItem p =>
-      match kind_of h i with
+      match x_kind o with
       | KElement =>
-          let h1 := ensure_props h i in
-          match aget p (cache_of h1 i) with
-          | Some _ => (xml_setp (del_cache h1 i p) (pown_of h1 i) p [], true)
-          | None => (h1, true)
+          let o1 := ensure_props i o in
+          match aget p (cache_of o1) with
+          | Some _ => (del_cache o1 p, [WProp (c_props_owner o1) p []], true)
+          | None => (o1, [], true)
           end
-      | KParsed => (hupd (xml_setp h i p []) i (fun ob => with_cprops ob None i), true)
+      | KParsed => (with_cprops o None i, [WProp i p []], true)
       end
-  | ObjAdd p v => (mutate_set h i p (set_add v), true)
+  | ObjAdd p v => let '(o1, ws) := mutate_set i o p (set_add v) in (o1, ws, true)
   | ObjRemove p v =>
-      let h1 := ensure_props h i in
-      if mem v (fst (entry h1 i p)) then (mutate_set h i p (set_del v), true)
-      else (set_cache h1 i p (entry h1 i p), false)
-  | ObjDiscard p v => (mutate_set h i p (set_del v), true)
+      let o1 := ensure_props i o in
+      if mem v (fst (entry o1 p)) then let '(o2, ws) := mutate_set i o p (set_del v) in (o2, ws, true)
+      else (set_cache o1 p (entry o1 p), [], false)
+  | ObjDiscard p v => let '(o1, ws) := mutate_set i o p (set_del v) in (o1, ws, true)
   | ObjPop p v =>
-      let h1 := ensure_props h i in
-      if is_nil (fst (entry h1 i p)) then (set_cache h1 i p (entry h1 i p), false)
-      else (mutate_set h i p (set_del v), true)
-  | ObjClear p => (mutate_set h i p (fun _ => []), true)
-  | ObjUpdate p vs => (mutate_set h i p (fun s => canon (vs ++ s)), true)
+      let o1 := ensure_props i o in
+      if is_nil (fst (entry o1 p)) then (set_cache o1 p (entry o1 p), [], false)
+      else let '(o2, ws) := mutate_set i o p (set_del v) in (o2, ws, true)
+  | ObjClear p => let '(o1, ws) := mutate_set i o p (fun _ => []) in (o1, ws, true)
+  | ObjUpdate p vs => let '(o1, ws) := mutate_set i o p (fun s => canon (vs ++ s)) in (o1, ws, true)
   | PropsSetItem p vs =>
-      let h1 := ensure_props h i in
-      let ow := pown_of h1 i in
-      (xml_setp (set_cache h1 i p (sset vs, ow)) ow p (sset vs), true)
+      let o1 := ensure_props i o in
+      (set_cache o1 p (sset vs, c_props_owner o1), [WProp (c_props_owner o1) p (sset vs)], true)
   | PropsDelItem p =>
-      let h1 := ensure_props h i in
-      match aget p (cache_of h1 i) with
-      | Some _ => (xml_setp (del_cache h1 i p) (pown_of h1 i) p [], true)
-      | None => (h1, true)
+      let o1 := ensure_props i o in
+      match aget p (cache_of o1) with
+      | Some _ => (del_cache o1 p, [WProp (c_props_owner o1) p []], true)
+      | None => (o1, [], true)
       end
   | SetProperties m =>
       let c := fold_left (fun d kv => aset (fst kv) (sset (snd kv), i) d) m [] in
-      (hupd h i (fun ob => with_cprops (with_xprops ob (fold_left (fun d kv => aput is_nil (fst kv) (sset (snd kv)) d) m []))
-                                       (Some c) i), true)
+      (with_cprops o (Some c) i, WClearProps i :: map (fun kv => WProp i (fst kv) (fst (snd kv))) c, true)
   | SetAttachment a None | DelAttachment a =>
-      let h1 := ensure_atts h i in
-      match aget a (acache_of h1 i) with
-      | Some _ => (xml_seta (del_acache h1 i a) (aown_of h1 i) a [], true)
-      | None => (h1, true)
+      let o1 := ensure_atts i o in
+      match aget a (acache_of o1) with
+      | Some _ => (del_acache o1 a, [WAtt (c_atts_owner o1) a []], true)
+      | None => (o1, [], true)
       end
   | SetAttachment a (Some d) =>
-      let h1 := ensure_atts h i in
-      let ow := aown_of h1 i in
+      let o1 := ensure_atts i o in
       let d' := fold_left (fun acc iv => aset (fst iv) (snd iv) acc) d [] in
-      (xml_seta (set_acache h1 i a (d', ow)) ow a d', true)
+      (set_acache o1 a (d', c_atts_owner o1), [WAtt (c_atts_owner o1) a d'], true)
   | AttSetValue a id v =>
-      let h1 := ensure_atts h i in
-      let '(d, ow) := aentry h1 i a in
-      (xml_seta (set_acache h1 i a (aset id v d, ow)) ow a (aset id v d), true)
+      let o1 := ensure_atts i o in
+      let '(d, ow) := aentry o1 a in
+      (set_acache o1 a (aset id v d, ow), [WAtt ow a (aset id v d)], true)
   | AttDelValue a id =>
-      let h1 := ensure_atts h i in
-      let '(d, ow) := aentry h1 i a in
-      (xml_seta (set_acache h1 i a (aremove id d, ow)) ow a (aremove id d), true)
-  | SetParents ps => (hupd h i (fun ob => with_attrs ob (x_typ ob) (x_src ob) (canon ps) (x_foreign ob)), true)
-  | AddParents ps => (hupd h i (fun ob => with_attrs ob (x_typ ob) (x_src ob) (canon (x_parents ob ++ ps)) (x_foreign ob)), true)
-  | SetType t => (hupd h i (fun ob => with_attrs ob t (x_src ob) (x_parents ob) (x_foreign ob)), true)
-  | SetSource s => (hupd h i (fun ob => with_attrs ob (x_typ ob) s (x_parents ob) (x_foreign ob)), true)
-  | SetForeign f => (hupd h i (fun ob => with_attrs ob (x_typ ob) (x_src ob) (x_parents ob)
-                                                    (fold_left (fun acc kv => aset (fst kv) (snd kv) acc) f [])), true)
-  | Flush => match kind_of h i with
-             | KParsed => (hupd h i (fun ob => with_cprops ob None i), true)
-             | KElement => (h, true)
+      let o1 := ensure_atts i o in
+      let '(d, ow) := aentry o1 a in
+      (set_acache o1 a (aremove id d, ow), [WAtt ow a (aremove id d)], true)
+  | SetParents ps => (with_attrs o (x_typ o) (x_src o) (canon ps) (x_foreign o), [], true)
+  | AddParents ps => (with_attrs o (x_typ o) (x_src o) (canon (x_parents o ++ ps)) (x_foreign o), [], true)
+  | SetType t => (with_attrs o t (x_src o) (x_parents o) (x_foreign o), [], true)
+  | SetSource s => (with_attrs o (x_typ o) s (x_parents o) (x_foreign o), [], true)
+  | SetForeign f => (with_attrs o (x_typ o) (x_src o) (x_parents o)
+                                (fold_left (fun acc kv => aset (fst kv) (snd kv) acc) f []), [], true)
+  | Flush => match x_kind o with
+             | KParsed => (with_cprops o None i, [], true)
+             | KElement => (o, [], true)
              end
+  end.
+
+Definition xstep (h : heap) (i : nat) (e : eop) : heap * bool :=
+  match hget h i with
+  | None => (h, true)
+  | Some o => let '(o', ws, ok) := lstep i o e in
+              (fold_left apply_write ws (hupd h i (fun _ => o')), ok)
   end.
 
 (* ---- observations ---- *)
